@@ -142,3 +142,21 @@ PROPS["C13"] = {
     "design_ref": "DESIGN.md section 5 (C13)",
     "explanation": "allowed-only-* / wrong-state-raises-RuntimeError / closed-on-every-outcome / G-st",
 }
+
+
+PROPS["C11"] = {
+    "functions": ["_event.Signal.__get__", "_event.Signal._check_is_bound_signal"],
+    "trusted": ["A-WR weakref.ref / WeakKeyDictionary hold no strong reference; keys are looked up by ==/hash (modelled as identity of the "
+                "instance: see known finding F8)", "A-DC dataclasses: a field(init=False) without default leaves the attribute unset",
+                "pyvc dict model"],
+    "assumptions": ["owner instances are identity-hashed (excluded region of known finding F8: instances that compare equal without being identical)",
+                    "Signal.dispatch delivery frame (only this channel's subscribers) is C10"],
+    "undecided": [],
+    "level_text": "Proof: Signal.__get__ returns the table entry of (instance, attribute); defined once (G-bind: bindings permanent), fresh on first "
+                  "access with the declaration's topic/event class, a weak reference to the instance and a fresh empty subscriber list; invariant "
+                  "I-bsig (every bound signal records its own instance and attribute) makes distinct pairs map to distinct signals; class-level "
+                  "use raises UnboundSignal exactly for declarations.",
+    "level_note": "Trusted: A-WR, A-DC, pyvc encoding. KNOWN-FINDING F8 (equal-but-distinct instances share a channel). fixed: F1.",
+    "design_ref": "DESIGN.md section 5 (C11)",
+    "explanation": "same-on-reaccess, fresh-on-first-access, other-topics-untouched, I-bsig, G-bind",
+}
